@@ -311,7 +311,16 @@ def run(ctx):
                 mops.append(f"AddToGroup {model['groups'].index(gname)} {cl(R)}")
             elif op == "record":
                 st = rng.choice(["v"] + [k for c in cell.channels for k in c.channel_states][:2])
-                view.record(st)
+                try:
+                    view.record(st)
+                except KeyError:
+                    # a view none of whose rows carries the channel of this state does not know the state: a refusal,
+                    # not a violation (a refusal although a row of the view carries the channel would be one)
+                    owner = [c._name for c in cell.channels if st in c.channel_states]
+                    rows_v = [int(i) for i in view.nodes.index]
+                    if st == "v" or not owner or bool(cell.nodes.loc[rows_v, owner[0]].astype(bool).any()):
+                        raise
+                    return txt + f" {st} (refused: state not in view)"
                 txt += f" {st}"
                 mops.append(f"Record_ {cl(R)}")
             elif op == "delete_recordings":
